@@ -34,6 +34,34 @@ def run(ctx):
                 tbl = dict((k.value, tuple(_ast.literal_eval(a) for a in v.args)) for k, v in zip(n.value.keys, n.value.values))
             except Exception:
                 tbl = None
+    # an identifier is one token: no pattern listed before ID matches a proper prefix of a word ('const' of 'constant')
+    import re as _re
+    spec = None
+    for n in _ast.parse(open(_os.path.join(_REPO, "shroud/declast.py")).read()).body:
+        if isinstance(n, _ast.Assign) and any(isinstance(t, _ast.Name) and t.id == "token_specification" for t in n.targets):
+            try:
+                spec = _ast.literal_eval(n.value)
+            except ValueError:
+                spec = None
+    if spec:
+        names = [k for k, _ in spec]
+        idpos = names.index("ID") if "ID" in names else len(spec)
+        for k, pat in spec[:idpos]:
+            words = set(_re.findall(r"[A-Za-z_]{2,}", pat))
+            hit = None
+            for w in sorted(words):
+                for probe in (w + "x", w + "_flag", w + "9"):
+                    try:
+                        m = _re.match(pat, probe)
+                    except _re.error:
+                        m = None
+                    if m and 0 < m.end() < len(probe) and _re.match(r"[A-Za-z_]\w*$", probe):
+                        hit = (probe, m.group(0))
+            ctx.item("C09/T2/tokenizer:%s:does-not-split-identifiers" % k, hit is None,
+                     "token pattern %s = %r, tried before ID, matches %r at the front of the identifier %r" % (
+                         k, pat, hit[1] if hit else "", hit[0] if hit else ""),
+                     sample={"token": k, "pattern": pat},
+                     confirm=lambda: ctx.monitor("m_roundtrip", "search", 10, ctx.seed))
     cxx_level = {"*": 2, "/": 2, "%": 2, "+": 1, "-": 1}
     ok = bool(tbl) and all(op in cxx_level and len(v) == 2 and v[1] == "LEFT" for op, v in tbl.items()) and all(
         (tbl[a][0] < tbl[b][0]) == (cxx_level[a] < cxx_level[b]) for a in tbl for b in tbl)
